@@ -596,3 +596,7 @@ def replay(body):
             if oracle_info(g):
                 rc_all = 1
     return rc_all
+
+
+def regen_setup():
+    return regen_stub()[:2]
